@@ -267,7 +267,7 @@ def eval_pipeline(case):
                                 observed={'word': w, 'thr': thr})
     # LAST (so that everything above is decided first): the same on a table computed WITHOUT sample columns (return_samples=False)
     thr = PIPE_THR[0]
-    for r in (0, .1):
+    for r in ((0, .1) if sum(map(ord, w)) % 2 == 0 or len(w) != 7 else ()):
         thr2 = lowered(thr, r)
         thr2['amp_fraction_threshold'] = thr['amp_fraction_threshold']        # (already 0: cannot be lowered)
         df_ns = run_cf(sig, o, threshold_kwargs=dict(thr), return_samples=False)
